@@ -14,6 +14,8 @@ PROPS = ["C02", "C03", "C04", "C05", "C06", "C07", "C08", "C09", "C10",
 
 
 def main(argv):
+    import warnings
+    warnings.simplefilter("ignore", SyntaxWarning)
     if not argv:
         print(__doc__)
         return 2
